@@ -153,7 +153,10 @@ impl Ord for Number {
         if self.value < other.value {
             Ordering::Less
         } else if self.value == other.value {
-            Ordering::Equal
+            // Same magnitude, order by unit so that only equal numbers compare as equal
+            let this_ids = self.unit.map(|unit| &unit.ids);
+            let other_ids = other.unit.map(|unit| &unit.ids);
+            this_ids.cmp(&other_ids)
         } else {
             Ordering::Greater
         }
